@@ -54,4 +54,9 @@ func init() {
 		Rule{Name: "E7.children", Run: runChildCoverage("refOriginsFor", map[string]string{})}, Rule{Name: "E2", Run: runE2})
 }
 
+func init() {
+	register("C09", Rule{Name: "E1.rows", Run: runRows("C09")}, Rule{Name: "E9.ctx", Run: runC09Ctx}, Rule{Name: "E3.alias", Run: runAppendAlias},
+		Rule{Name: "E5", Run: runE5}, Rule{Name: "E2", Run: runE2})
+}
+
 var childExceptions = map[string]string{}
